@@ -35,8 +35,23 @@ class SizingSetModel(ModelObj):
     def snapshot(self):
         return SizingSetModel(self.has, self.frozen)
 
+    def py_havoc(self, st):
+        """Loop havoc of a set the loop may change (`supported.add(..)` inside a loop): arbitrary membership."""
+        if self.frozen:
+            raise Unsupported("havoc of a frozenset of sizing modes")
+        self.has = {m: st.fresh_bool(f"sizing^.{getattr(m, 'value', m)}") for m in self.has}
+
     def py_truth(self, st):
         return either(*self.has.values())
+
+    def py_len(self, st):
+        return self.py_iter(None, st).py_len(st)
+
+    def py_iter(self, ip, st):
+        """Iteration: every candidate of the universe under its membership guard (pyvc.seqs.GuardedSeq: folds only)."""
+        from pyvc.seqs import GuardedSeq
+
+        return GuardedSeq([(h, x) for x, h in self.has.items()])
 
     def py_contains(self, ip, st, x):
         x = st.force(x)
